@@ -1031,6 +1031,73 @@ fn calibrate_pair(tfm_bytes: &[u8], pl: &str) -> Result<(usize, Vec<String>), St
 
 // ------------------------------------------------------------------------------------------
 
+// ------------------------------------------------------------------------------------------
+// coverage-guided stage
+// ------------------------------------------------------------------------------------------
+
+/// Entry point of the libFuzzer target `c11_pl_font` (harness/vfuzz). Byte 0 selects the character display format and
+/// whether the rest is a property list (b0 = pl_to_tfm(text), which must be warning-free, as in the `gen` phase) or a
+/// .tfm file taken as b0 directly (high bit). b0 then goes through `chain`, the oracle of all generated phases: a
+/// warning-free b0 must come back from TFM -> PL -> TFM as the same font (our own reader of the raw bytes and the crate's),
+/// the canonical bytes must be a fixed point, the property lists must agree, and lig/kern runs must be identical.
+pub fn fuzz_one(data: &[u8], obs: &mut Obs) {
+    let Some((sel, rest)) = data.split_first() else {
+        return;
+    };
+    let mut rng = Rng::new(vcore::stable_hash(rest));
+    let b0: Vec<u8> = if sel & 0x80 != 0 {
+        rest.to_vec()
+    } else {
+        let Ok(text) = std::str::from_utf8(rest) else {
+            return;
+        };
+        match catch(|| tfm::algorithms::pl_to_tfm(text)) {
+            Ok((b, w)) if w.is_empty() => b,
+            Ok(_) => {
+                obs.skip("fuzz:pl-has-warnings");
+                return;
+            }
+            Err(_) => {
+                // a panic while *making* b0 is C10's subject
+                obs.skip("fuzz:making-b0-panics");
+                return;
+            }
+        }
+    };
+    let how = || json!({"fuzz": "b0 from the fuzzer's input"});
+    let r = chain(obs, &mut rng, &b0, (*sel & 3) as u64, &how);
+    report(obs, "fuzz", r, &how);
+}
+
+/// Seed corpus (generated fonts of every size class as property lists, small corpus fonts as bytes) and dictionary.
+pub fn fuzz_seeds() -> vcore::fuzzglue::Seeds {
+    let mut inputs = vec![];
+    for k in 0..120u64 {
+        let mut rng = Rng::new(0xC11 + k);
+        let (text, _) = gen::gen_font(&mut rng, k);
+        if text.len() <= 6000 {
+            let mut v = vec![(k % 3) as u8];
+            v.extend_from_slice(text.as_bytes());
+            inputs.push(v);
+        }
+    }
+    for (_, b) in corpus().tfm.iter().filter(|(_, b)| b.len() <= 3000).take(40) {
+        let mut v = vec![0x80u8];
+        v.extend_from_slice(b);
+        inputs.push(v);
+    }
+    let dictionary = [
+        "(CHARACTER C ", "(CHARWD R ", "(CHARHT R ", "(CHARDP R ", "(CHARIC R ", "(NEXTLARGER C ", "(VARCHAR", "(TOP C ", "(MID C ", "(BOT C ", "(REP C ",
+        "(LIGTABLE", "(LABEL C ", "(LABEL BOUNDARYCHAR)", "(LIG C ", "(/LIG C ", "(LIG/ C ", "(/LIG/ C ", "(/LIG> C ", "(LIG/> C ", "(/LIG/> C ", "(/LIG/>> C ",
+        "(KRN C ", "(STOP)", "(SKIP D ", "(BOUNDARYCHAR C ", "(FONTDIMEN", "(PARAMETER D ", "(SLANT R ", "(DESIGNSIZE R ", "(CHECKSUM O ", "(FACE F ",
+        "(CODINGSCHEME ", "(FAMILY ", "(HEADER D ", "(SEVENBITSAFEFLAG TRUE)", " R 0.5)", " O 101)", " D 255)", ")", "\n",
+    ]
+    .iter()
+    .map(|s| s.to_string())
+    .collect();
+    vcore::fuzzglue::Seeds { inputs, dictionary }
+}
+
 fn report(obs: &mut Obs, class: &str, r: ChainResult, sample: &dyn Fn() -> Value) {
     match r {
         ChainResult::Skipped(why) => obs.skip(&format!("{class}:{why}")),
